@@ -24,7 +24,7 @@ Proof.
   destruct (choose_filename fs (a_files st) fp) as [target| |]; cbn [rbind]; try discriminate.
   destruct (get_or_load fs (a_files st) target) as [[file ov1]| |]; cbn [rbind]; try discriminate.
   destruct (pf_rename fp).
-  - destruct (pf_new fp) as [newname|]; [|discriminate].
+  - destruct (knew fp) as [newname|]; [|discriminate].
     destruct (move_out file) as [stay tmp].
     destruct (get_or_load fs (ov_set target stay ov1) newname) as [[newfile ov3]| |]; cbn [rbind]; try discriminate.
     destruct (move_in newfile tmp) as [nf|].
